@@ -138,14 +138,21 @@ pub fn plan_reset() {
     PAUSE_KIND.store(0, SeqCst);
     PAUSE_ORDINAL.store(0, SeqCst);
     PAUSE_MAX_US.store(0, SeqCst);
+    if let Ok(mut v) = PAUSE_SET.lock() {
+        v.clear();
+    }
     for k in &KIND_COUNT {
         k.store(0, SeqCst);
     }
 }
 
+/// additional pause points (kind, ordinal); same semantics as PAUSE_KIND/PAUSE_ORDINAL
+pub static PAUSE_SET: Mutex<Vec<(u8, i64)>> = Mutex::new(Vec::new());
+
 fn maybe_pause(kind: Kind) {
     let n = KIND_COUNT[kind as usize].fetch_add(1, SeqCst) + 1;
-    if PAUSE_KIND.load(SeqCst) == kind as u8 && PAUSE_ORDINAL.load(SeqCst) == n {
+    let in_set = PAUSE_MAX_US.load(SeqCst) > 0 && PAUSE_SET.lock().map(|v| v.iter().any(|p| p.0 == kind as u8 && p.1 == n)).unwrap_or(false);
+    if in_set || (PAUSE_KIND.load(SeqCst) == kind as u8 && PAUSE_ORDINAL.load(SeqCst) == n) {
         let max = PAUSE_MAX_US.load(SeqCst);
         let start_rel = PAUSE_RELEASE.load(SeqCst);
         PAUSES_TAKEN.fetch_add(1, SeqCst);
